@@ -72,6 +72,14 @@ func WConfig(prop, tier string) *Config {
 			cfg.Phases = append(cfg.Phases, Phase{Name: "denom-sweep-depth2", Roots: []string{"R1", "R8"}, Ops: append(denomSweepOpNames(), follow...), First: denomSweepOpNames(), Second: follow, Depth: 2, Dev: 2})
 		}
 	}
+	// every parameter of the modules a property's state lives in, at its boundary values AND at half /
+	// double its current value (a valid, non-default configuration), followed by the property's core ops:
+	// code that is only reached — or only differs — after governance moved a parameter
+	if pp, ok := paramPhases[prop]; ok {
+		first := autoCfgAllNamesFor(pp.mods...)
+		second := append([]string{"empty"}, pp.follow...)
+		cfg.Phases = append(cfg.Phases, Phase{Name: "module-params-depth2", Roots: []string{"R1"}, Ops: append(append([]string{}, first...), second...), First: first, Second: second, Depth: 2, Dev: 3})
+	}
 	if tier != "thorough" {
 		return devOnlyPhase(cfg)
 	}
@@ -305,3 +313,20 @@ func wConfig(prop, tier string) *Config {
 }
 
 var perpEdgeOps = []string{"perp_bot_liquidate_all_fwd_at_edge_long", "perp_bot_liquidate_all_rev_at_edge_long", "perp_bot_liquidate_all_fwd_at_edge_short", "perp_bot_liquidate_all_rev_at_edge_short"}
+
+type paramPhase struct {
+	mods   []string // substrings of the governance message type URLs
+	follow []string // the property's core ops
+}
+
+var paramPhases = map[string]paramPhase{
+	"C01": {[]string{"/elys.amm.", "/elys.perpetual.MsgUpdateParams"}, []string{"swap_in_p1_usdc_atom_L", "swap_out_p1_atom_usdc_D", "swap_in_p1_atom_usdc_L", "join_p1_single_usdc_t1", "exit_p1_single_atom_lp1", "perp_open_long_t3_x5", "perp_close_full_t1"}},
+	"C02": {[]string{"/elys.amm.", "/elys.leveragelp."}, []string{"join_p1_all_t1", "exit_p1_10pct_lp1", "llp_open_t2_x5", "llp_close_full_t1", "llp_bot_close_all_at_2"}},
+	"C06": {[]string{"/elys.leveragelp."}, []string{"gap_1d", "llp_open_t2_x5", "llp_close_full_t1", "bond_lp1_L", "unbond_lp2_half"}},
+	"C08": {[]string{"/elys.leveragelp.", "/elys.stablestake."}, []string{"llp_open_t2_x5", "llp_open_t1_x2_again", "llp_close_half_t1", "llp_close_full_t1", "llp_bot_close_all_at_2", "gap_61m"}},
+	"C09": {[]string{"/elys.perpetual.", "/elys.amm.MsgUpdateParams"}, []string{"perp_open_long_t3_x5", "perp_topup_t1", "perp_close_half_t1", "perp_close_full_t2", "perp_bot_close_all_at_3", "gap_1d"}},
+	"C11": {[]string{"/elys.perpetual.", "/elys.amm.MsgUpdateParams"}, []string{"perp_open_long_t3_x5", "perp_close_full_t1", "swap_in_p1_usdc_atom_L", "join_p1_all_t1", "exit_p1_10pct_lp1", "perp_bot_close_all_at_3"}},
+	"C12": {[]string{"/elys.commitment.", "/elys.estaking.", "/elys.masterchef.MsgUpdateParams"}, []string{"commit_eden_lp1", "uncommit_eden_lp1", "unstake_elys_lp1", "vest_eden_lp1", "mc_claim_lp1", "unbond_lp2_half"}},
+	"C13": {[]string{"/elys.masterchef.", "/elys.estaking."}, []string{"swap_in_p1_usdc_atom_L", "fee_tx_uatom", "mc_claim_lp1", "join_p2_big_t1", "exit_p2_half_lp1", "gap_1d"}},
+	"C15": {[]string{"/elys.commitment.", "/elys.tokenomics.", "/elys.estaking."}, []string{"vest_eden_lp1", "claim_vesting_lp1", "vest_now_lp1", "mc_claim_lp1", "gap_1d", "stake_elys_lp1"}},
+}
